@@ -90,6 +90,13 @@ func c03Wheres() []c03Where {
 		{"key = 'a002'", "", ""},
 		{"key > 'a000' & n > 1", "num", "int(value) as n"}, {"key between 'a001' and 'a009' & l > 1", "", "strlen(value) as l"},
 		{"key ^= 'a0' & value != '2' & u != 'A003'", "", "upper(key) as u"}, {"value != '1' & n + 1 > 1", "num", "int(value) as n"},
+		// predicates that row iteration refuses on some or all pairs (reversed
+		// bounds, zero divisors, vectors of different lengths): batch iteration
+		// may not complete where row iteration fails
+		{"value between 'x' and 'm'", "", ""}, {"int(value) between 100 and 50", "num", ""}, {"value between key and 'A'", "", ""},
+		{"key > 'a001' & value between 'zz' and 'z'", "", ""}, {"value between 'zz' and 'z' | key = 'a000'", "", ""},
+		{"10 / (int(value) - 2) > 1", "num", ""}, {"key != 'a001' & 10 / (int(value) - 2) > 1", "num", ""},
+		{"l2_distance(list(1, 2), split(value, ',')) > 0", "csv", ""},
 	}
 }
 
